@@ -69,6 +69,7 @@ def cases(tier, seed):
             else:
                 yield {"fam": fam, "n": n, "sector": sec, "depth": depth, "shard": a.name}
     yield from tree_cases(tier)
+    yield from ctor_cases(tier)
 
 
 @functools.lru_cache(maxsize=8)
@@ -259,6 +260,8 @@ def make_invariants(ch):
 def run_case(desc, seed):
     if desc.get("k") == "tree":
         return run_tree(desc, seed)
+    if desc.get("k") == "ctor":
+        return run_ctor(desc, seed)
     fam, n, sec = desc["fam"], desc["n"], tuple(desc["sector"])
     ch = _chain(fam, n, seed)
     st0, acts = build(fam, n, sec, seed)
@@ -344,7 +347,11 @@ def tree_cases(tier):
                 elif N >= 4:
                     dists = [d for d in dists if max(len(g) for g in d) <= 1]
                 for dist in dists:
-                    for sec in sectors(fam, m):
+                    for isec, sec in enumerate(sectors(fam, m)):
+                        if not quick and N >= 3 and isec not in (1, 2):
+                            continue       # thorough: every distribution on <= 3 nodes, two sectors each; 4 nodes: one set per node
+                        if not quick and N == 4 and famname != "elec3":
+                            continue
                         if quick and famname == "two3" and sec not in ([1, 1], [1, 0], [2, 1]):
                             continue
                         if quick and famname == "two3" and N == 3 and max(len(g) for g in dist) > 1:
@@ -352,7 +359,7 @@ def tree_cases(tier):
                         if quick and famname == "elec3" and sec not in ([1], [2]) and N == 3:
                             continue
                         yield {"k": "tree", "fam": famname, "parent": parent, "groups": [list(g) for g in dist], "sector": sec, "n": N,
-                               "depth": 2, "shard": "tree", "few_numerical": quick}
+                               "depth": 2, "shard": "tree", "few_numerical": quick or N >= 3}
 
 
 def run_tree(desc, seed):
@@ -505,6 +512,110 @@ def run_tree(desc, seed):
 
 LABEL_FRAMES_TREE = {"get_qnmat", "get_qnmask", "svd_qn", "eigh_qn", "get_qn_mask", "add_outer", "compress_node", "decompose_to_parent", "decompose_to_child",
                      "update_2site", "truncate_tensors", "merge_to_parent", "merge_to_child"}
+
+
+# ----------------------------------------------------------------------------------------------- sector-aware constructors
+
+def local_alphabet(b):
+    """every way to hand one site's local state to hartree_product_state: integer index, unit vectors with either sign and a phase,
+    and normalised combinations of two states with the same quantum number (both signs)"""
+    d = b.nbas
+    sq = np.asarray(b.sigmaqn).reshape(d, -1)
+    out = [("int", k, k) for k in range(d)]
+    for k in range(d):
+        e = np.zeros(d)
+        e[k] = 1.0
+        out.append(("+e", k, e.copy()))
+        out.append(("-e", k, -e))
+    for j in range(d):
+        for k in range(j + 1, d):
+            if np.all(sq[j] == sq[k]):
+                v = np.zeros(d)
+                v[j], v[k] = 0.6, 0.8
+                out.append(("mix", (j, k), v.copy()))
+                out.append(("-mix", (j, k), -v))
+                w = np.zeros(d)
+                w[j], w[k] = -0.6, 0.8
+                out.append(("mix+-", (j, k), w))
+    return out
+
+
+def ctor_cases(tier):
+    for fam, n in (("elec", 3), ("two", 3), ("mixed", 3), ("eph", 3)):
+        for qn_idx in list(range(n)) + [None]:
+            yield {"k": "ctor", "fam": fam, "n": n, "qn_idx": qn_idx, "depth": 0, "shard": "ctor"}
+
+
+def run_ctor(desc, seed):
+    import itertools
+    from renormalizer.mps import Mps
+    from renormalizer.utils import CompressConfig, CompressCriteria
+    from mc.ref.dense import kron_all, sector_projector
+    fam, n = desc["fam"], desc["n"]
+    ch = _chain(fam, n, seed)
+    basis = list(ch.basis)
+    alph = [local_alphabet(b) for b in basis]
+    sig = [np.asarray(b.sigmaqn).reshape(b.nbas, -1) for b in basis]
+    viol = {}
+    nb = 0
+
+    def add(sig_, msg):
+        if sig_ not in viol:
+            viol[sig_] = {"sig": sig_, "msg": msg}
+
+    for combo in itertools.product(*alph):
+        cond = {}
+        vecs = []
+        qexp = np.zeros(sig[0].shape[1], dtype=int)
+        kinds = []
+        for b, (kind, idx, val), sq in zip(basis, combo, sig):
+            dof = b.dofs[0]
+            cond[dof] = val
+            kinds.append(kind)
+            if isinstance(val, int):
+                v = np.zeros(b.nbas)
+                v[val] = 1.0
+                qexp = qexp + sq[val]
+            else:
+                v = np.asarray(val, dtype=float)
+                qexp = qexp + sq[np.nonzero(v)[0][0]]
+            vecs.append(v.reshape(-1, 1))
+        ref = kron_all(vecs).reshape(-1)
+        klass = "+".join(sorted(set(kinds)))
+        tag = f"[{fam} n={n} qn_idx={desc['qn_idx']}] condition {[(k, str(i)) for k, i, _ in combo]}"
+        try:
+            mps = Mps.hartree_product_state(ch.new_model(), cond, qn_idx=desc["qn_idx"])
+        except Exception as e:
+            add(f"C06:ctor:exception:{type(e).__name__}", f"{tag}: {e!r}")
+            continue
+        nb += 1
+        d = M.dense_of(mps)
+        if not np.allclose(d, ref, atol=1e-12):
+            add("C06:ctor:vector", f"{tag}: dense vector differs from the Kronecker product of the local states")
+            continue
+        if np.any(np.asarray(mps.qntot).reshape(-1) != qexp):
+            add(f"C06:ctor:qntot:{klass}", f"{tag}: qntot {np.asarray(mps.qntot).tolist()} but the amplitude lies in sector {qexp.tolist()}")
+            continue
+        mask = sector_projector(sig, qexp)
+        if np.linalg.norm(d[~mask]) > 1e-12:
+            add("C06:ctor:sector", f"{tag}: amplitude outside sector {qexp.tolist()}")
+        v, where = M.label_violation(mps)
+        if v > 1e-10:
+            add(f"C06:ctor:label:{klass}", f"{tag}: entry of relative size {v:.2e} in a block the stored labels forbid ({where})")
+            continue
+        if desc["qn_idx"] is not None and mps.qnidx != desc["qn_idx"]:
+            add("C06:ctor:qnidx", f"{tag}: centre at {mps.qnidx}")
+        # the labels must survive a gauge sweep
+        try:
+            mps.ensure_left_canonical()
+            mps.ensure_right_canonical()
+            d2 = M.dense_of(mps)
+            if not np.allclose(d2, ref, atol=1e-10):
+                add(f"C06:ctor:sweep:{klass}", f"{tag}: canonicalising the product state changed it by {np.abs(d2 - ref).max():.2e}")
+        except Exception as e:
+            add(f"C06:ctor:sweep:exception:{type(e).__name__}", f"{tag}: {e!r}")
+    return {"nontrivial": nb > 0, "states": nb, "transitions": 2 * nb, "viol": list(viol.values()), "counters": {"product_states_built": nb},
+            "outcome": "ctor:viol" if viol else "ctor:ok", "sample": {"desc": desc, "product_states": nb}}
 
 
 def _generic(name):
